@@ -115,8 +115,8 @@ type Driver struct {
 	out *bufio.Reader
 }
 
-func StartDriver(path, model string) (*Driver, error) {
-	cmd := exec.Command(path, model)
+func StartDriver(path string) (*Driver, error) {
+	cmd := exec.Command(path)
 	in, err := cmd.StdinPipe()
 	if err != nil {
 		return nil, err
@@ -505,7 +505,7 @@ func Main(cfg Config) {
 	flag.Parse()
 
 	start := time.Now()
-	drv, err := StartDriver(*driverPath, cfg.Model)
+	drv, err := StartDriver(*driverPath)
 	if err != nil {
 		fmt.Fprintln(os.Stderr, "cannot start driver:", err)
 		os.Exit(3)
